@@ -45,10 +45,24 @@ Proof. intros lang c. unfold enc_lv_entry. destruct (lang =? 0); reflexivity. Qe
 Theorem preimage_formula : forall (H : list Z -> list Z) wr wd lvo sd,
   build_for wr wd lvo = Some sd ->
   script_data_hash H sd =
-  H (ledger_preimage (option_map enc_redeemers wr) wd (option_map enc_language_views lvo)).
+  H (ledger_preimage (option_map enc_redeemers wr) (option_map enc_datums wd) (option_map enc_language_views lvo)).
 Proof. exact preimage_formula_proof. Qed.
 
-Theorem none_when_empty : forall wr wd lvo, build_for wr wd lvo = None <-> wr = None /\ wd = None.
+(* the datum part: the captured bytes when the KeepRaw holds any; for datums built in memory
+   (KeepRaw::from / cleared raw) the bytes the witness set serialises them to — never nothing *)
+Theorem datums_as_captured : forall raw items, raw <> [] -> enc_datums (raw, items) = raw.
+Proof. intros raw items H. unfold enc_datums. cbn [fst snd]. destruct raw; [congruence|reflexivity]. Qed.
+
+Theorem datums_in_memory : forall items,
+  enc_datums ([], items) = [217; 1; 2] ++ e_array (len items) ++ concat (map enc_kr_pdata items).
+Proof. intros items. reflexivity. Qed.
+
+Theorem datums_never_vanish : forall d, enc_datums d <> [].
+Proof.
+  intros [raw items]. unfold enc_datums. cbn [fst snd]. destruct raw; cbn [is_nil]; discriminate.
+Qed.
+
+Theorem none_when_empty : forall wr (wd : option kdatums) lvo, build_for wr wd lvo = None <-> wr = None /\ wd = None.
 Proof. exact none_when_empty_proof. Qed.
 
 (* non-vacuity *)
@@ -57,6 +71,8 @@ Example ex_order :
   map key_enc [1; 23; 24; 255; 0] = [[1]; [23]; [24; 24]; [24; 255]; [65; 0]] /\
   wf_lviews [(0, [1; -1]); (1, [-9223372036854775808]); (2, [])] = true /\
   enc_language_views [(0, [1; -1]); (1, [24]); (2, [])] = [163; 1; 129; 24; 24; 2; 128; 65; 0; 68; 159; 1; 32; 255] /\
-  build_for None (Some [129; 1]) (Some [(1, [])]) = Some (mkScriptData None (Some [129; 1]) None) /\
-  script_data_preimage (mkScriptData None (Some [129; 1]) None) = [160; 129; 1; 160].
+  build_for None (Some ([129; 1], [])) (Some [(1, [])]) = Some (mkScriptData None (Some ([129; 1], [])) None) /\
+  script_data_preimage (mkScriptData None (Some ([129; 1], [])) None) = [160; 129; 1; 160] /\
+  script_data_preimage (mkScriptData None (Some ([], [([], PBytes [7]); ([24; 5], PBigInt (BInt 5))])) None) =
+    [160; 217; 1; 2; 130; 65; 7; 24; 5; 160].
 Proof. repeat split; vm_compute; reflexivity. Qed.
